@@ -735,3 +735,27 @@ func badRangeWrite(s []int) int {
 	}
 	return 0
 }
+
+// ---- a callee that returns its operand: the result shares its storage
+func same(s []int) []int { return s }
+func badCallResultAlias(s []int) int {
+	t := same(s)
+	t[0] = 1
+	return s[0]
+}
+
+// ---- a struct that holds a slice is copied shallowly
+type holder struct{ buf []int }
+
+func badShallowCopy(p holder) int {
+	q := p
+	q.buf[0] = 1
+	return p.buf[0]
+}
+
+// ---- f(s...) passes the slice itself
+func first1(v ...int) { v[0] = 1 }
+func badSpread(s []int) int {
+	first1(s...)
+	return s[0]
+}
